@@ -55,7 +55,7 @@ def run(ctx):
             cases = [nc.Case(**rp["case"])] + cases[:5]
     rc, runs, err = nc.run_cases(ctx, cases)
     if rc != 0:
-        ctx.violation("harness-crash", "notify harness ended with status %s: %s" % (rc, err[-800:]), dict(stderr=err[-3000:]))
+        nc.crash_violation(ctx, cases, runs, rc, err)
     dist = {"type": {}, "P": {}, "multi_call": 0, "multi_call_barrier": 0, "adv": {}, "empty_lists": 0, "self_notification": 0}
     for c, r in zip(cases, runs):
         t = nc.TYPES[c.type] if c.api == 0 else "api%d" % c.api
